@@ -86,9 +86,10 @@ def op_add(w: World, op: dict):
 def op_status(w: World, op: dict):
     from dvc_data.hashfile.status import status
 
-    odb = w.odb(op["s"])
+    ro = bool(op.get("ro", False))
+    odb = w.odb(op["s"], read_only=ro)
     index = w.open_index() if op.get("idx") and op["s"] == w.idx_store else None
-    act = {"op": "Status", "s": op["s"], "ids": sorted(op["ids"]), "shallow": op["shallow"], "idx": bool(op.get("idx"))}
+    act = {"op": "Status", "s": op["s"], "ids": sorted(op["ids"]), "shallow": op["shallow"], "idx": bool(op.get("idx")), "ro": ro}
     try:
         try:
             r = status(odb, set(_his(w, op["ids"])), index=index, shallow=op["shallow"])
@@ -116,13 +117,14 @@ def op_cmpstatus(w: World, op: dict):
 
 
 def op_check(w: World, op: dict):
-    odb = w.odb(op["s"])
+    ro = bool(op.get("ro", False))
+    odb = w.odb(op["s"], read_only=ro)
     try:
         odb.check(w.uni.oid[op["o"]])
         res = "ok"
     except Exception as exc:  # noqa: BLE001 - the exception type is the observation
         res = type(exc).__name__
-    w.emit({"op": "Check", "s": op["s"], "o": op["o"]}, {"op": "check", "res": res})
+    w.emit({"op": "Check", "s": op["s"], "o": op["o"], "ro": ro}, {"op": "check", "res": res})
 
 
 def op_gc(w: World, op: dict):
@@ -372,6 +374,8 @@ def tamper_matrix() -> list[dict]:
                         [{"op": "Transfer", "src": s, "dst": other, "req": FILES + list(DIRS), "shallow": True, "idx": False, "F": []}],
                     ]
                     for fu in followups:
+                        # every other case through a handle opened read-only
+                        fu = [dict(x, ro=True) if x["op"] in ("Check", "Status") and len(cases) % 2 else x for x in fu]
                         cases.append({"init": full, "ops": [{"op": "Tamper", "s": s, "o": o, "pat": pat}] + fu,
                                       "kind": "tamper-matrix", "state": state})
     return cases
@@ -601,11 +605,13 @@ def check_C07(run: core.Run, replay=None):
         gv = tlc_generate("c11quick")
         cases = []
         for c in gen["check"]:
-            cases.append({"init": c["init"], "ops": [{"op": "Check", "s": c["s"], "o": c["o"]}], "kind": "check"})
+            for ro in (False, True):
+                cases.append({"init": c["init"], "ops": [{"op": "Check", "s": c["s"], "o": c["o"], "ro": ro}], "kind": "check"})
         bad = [c for c in gen["status"] if any(v == "bad_u" for v in c["init"][c["s"]].values())]
         for c in _sample(bad, 1200 if quick else 10**9, rng):
-            ops = [{"op": "Status", "s": c["s"], "ids": c["ids"], "shallow": c["shallow"], "idx": False},
-                   {"op": "Check", "s": c["s"], "o": sorted(c["ids"])[0]}]
+            ro = len(cases) % 2 == 1
+            ops = [{"op": "Status", "s": c["s"], "ids": c["ids"], "shallow": c["shallow"], "idx": False, "ro": ro},
+                   {"op": "Check", "s": c["s"], "o": sorted(c["ids"])[0], "ro": ro}]
             cases.append({"init": c["init"], "ops": ops, "kind": "status+check"})
         for c in _sample(gv["verify"], 600 if quick else 10**9, rng):
             cases.append({"init": c["init"], "ops": [xfer_op(c, verify=c["verify"])], "kind": "verify"})
